@@ -186,8 +186,32 @@ def _c06():
 C06_UNITS = _c06()
 
 
+C07_UNITS = [
+    plain("c07_normal_from_zscore_f32", "c07", ["C07"], "Normal::from_zscore", "src/normal.rs", [("mean", "f32"), ("std_dev", "f32"), ("z", "f32")],
+          "from_zscore(z) == mean + std_dev * z (equal, or both NaN) for all mean, finite std_dev of either sign, z", solver="kissat", timeout=1200,
+          replay={"kind": "sampler", "id": "normal_from_zscore", "float": "f32"}),
+    plain("c07_lognormal_from_zscore_f32", "c07", ["C07"], "LogNormal::from_zscore", "src/normal.rs", [("mu", "f32"), ("sigma", "f32"), ("z", "f32")],
+          "from_zscore(z) == exp(mu + sigma * z) (memoised exp contract)", solver="kissat", timeout=1200, stubs=["exp"],
+          replay={"kind": "sampler", "id": "lognormal_from_zscore", "float": "f32"}),
+    plain("c07_cauchy_affine_f32", "c07", ["C07"], "Cauchy::sample", "src/cauchy.rs", [("median", "f32"), ("scale", "f32"), ("words", "words1")],
+          "Cauchy(median, scale)(w) == median + scale * Cauchy(0,1)(w); one word each", solver="kissat", timeout=2400, stubs=["tan"], tier="thorough",
+          replay={"kind": "sampler", "id": "cauchy_affine", "float": "f32"}),
+    plain("c07_gumbel_affine_f32", "c07", ["C07"], "Gumbel::sample", "src/gumbel.rs", [("location", "f32"), ("scale", "f32"), ("words", "words1")],
+          "Gumbel(location, scale)(w) == location + scale * Gumbel(0,1)(w); one word each", solver="kissat", timeout=1800, stubs=["log"],
+          replay={"kind": "sampler", "id": "gumbel_affine", "float": "f32"}),
+    plain("c07_frechet_affine_shape2_f32", "c07", ["C07"], "Frechet::sample", "src/frechet.rs", [("location", "f32"), ("scale", "f32"), ("words", "words1")],
+          "Frechet(location, scale, 2)(w) == location + scale * Frechet(0,1,2)(w); one word each", solver="kissat", timeout=1800, stubs=["log", "pow"], kind="bounded",
+          bound="shape fixed to 2.0 (a symbolic shape adds a divider miter that does not close); location, scale and the word are unconstrained inside E",
+          replay={"kind": "sampler", "id": "frechet_affine_shape2", "float": "f32"}),
+    plain("c07_frechet_affine_shape075_f32", "c07", ["C07"], "Frechet::sample", "src/frechet.rs", [("location", "f32"), ("scale", "f32"), ("words", "words1")],
+          "Frechet(location, scale, 0.75)(w) == location + scale * Frechet(0,1,0.75)(w); one word each", solver="kissat", timeout=1800, stubs=["log", "pow"], kind="bounded", tier="thorough",
+          bound="shape fixed to 0.75; location, scale and the word are unconstrained inside E",
+          replay={"kind": "sampler", "id": "frechet_affine_shape075", "float": "f32"}),
+]
+
+
 def all_units():
-    return c04_units() + C04_EXTRA + C03_UNITS + C06_UNITS
+    return c04_units() + C04_EXTRA + C03_UNITS + C06_UNITS + C07_UNITS
 
 
 # ------------------------------------------------------------------ native replay dispatcher (generated Rust)
